@@ -55,7 +55,7 @@ def work(item):
         out['error'] = type(e).__name__
         return out
     try:
-        out['nw'] = nwchem_cases(b, rng) + nwchem_ecp_cases(b, rng) + g94_cases(b, rng) + g94_ecp_cases(b, rng)
+        out['nw'] = nwchem_cases(b, rng) + nwchem_ecp_cases(b, rng) + g94_cases(b, rng) + g94_ecp_cases(b, rng) + tm_cases(b, rng)
     except Exception as e:
         out['nw'] = [('harness-error', None, '%s: %s' % (type(e).__name__, e))]
     fmts = sorted(set(writers.get_writer_formats()) & set(readers.get_reader_formats()))
@@ -550,6 +550,119 @@ def g94_ecp_cases(b, rng):
             cases.append(('g94ecp-read:' + kind, dict(op='g94_ecp_read', lines=[g94e_tok(l) for l in m]), g94_real_read_ecp(m)))
     return cases
 
+
+# ---------------------------------------------------------------------------------------------------------
+# Turbomole electron section at the token level (Props/C03 turbomole_electron_roundtrip)
+# ---------------------------------------------------------------------------------------------------------
+def tm_tok(line):
+    from basis_set_exchange.readers import turbomole as rt
+    if line == '*':
+        return dict(k='star')
+    if line.startswith('*'):
+        return dict(k='starish')
+    m = rt.element_re.match(line)
+    if m:
+        return dict(k='elem', sym=m.group(1), rest=m.group(2))
+    m = rt.shell_re.match(line)
+    if m:
+        return dict(k='shell', n=m.group(1), am=m.group(2))
+    return dict(k='row', t=line.split())
+
+
+def tm_real_read(sec):
+    from basis_set_exchange.readers import turbomole as rt
+    bs = {}
+    try:
+        rt._parse_electron_lines(list(sec), bs)
+    except Exception as e:
+        return ('err', type(e).__name__)
+    return ('ok', [[int(z), [dict(ftype=sh['function_type'], am=sh['angular_momentum'], exps=sh['exponents'], coefs=sh['coefficients'])
+                             for sh in el['electron_shells']]] for z, el in bs.items()])
+
+
+def tm_mutations(sec, rng):
+    out = []
+    n = len(sec)
+    from basis_set_exchange.readers import turbomole as rt
+    for kind in ('drop_line', 'swap', 'no_last_star', 'extra_star', 'starish', 'nprim_wrong', 'two_letter_am', 'bad_am', 'ordinals', 'bad_ordinal', 'garbage_token',
+                 'three_floats', 'dup_element', 'bad_sym', 'elem_no_name', 'shell_without_rows', 'upper'):
+        m = list(sec)
+        try:
+            elems = [i for i, l in enumerate(m) if rt.element_re.match(l) and not l.startswith('$')]
+            shells = [i for i, l in enumerate(m) if rt.shell_re.match(l)]
+            rows = [i for i, l in enumerate(m) if i not in elems and i not in shells and not l.startswith(('*', '$'))]
+            if kind == 'drop_line':
+                del m[rng.randrange(1, n)]
+            elif kind == 'swap':
+                i, j = rng.randrange(1, n), rng.randrange(1, n); m[i], m[j] = m[j], m[i]
+            elif kind == 'no_last_star':
+                m.pop()
+            elif kind == 'extra_star':
+                m.insert(rng.choice(rows), '*')
+            elif kind == 'starish':
+                m.insert(rng.choice(rows), '** note')
+            elif kind == 'nprim_wrong':
+                i = rng.choice(shells); t = m[i].split(); t[0] = str(int(t[0]) + rng.choice([-1, 1])); m[i] = '   '.join(t)
+            elif kind == 'two_letter_am':
+                i = rng.choice(shells); m[i] = m[i] + 'p'
+            elif kind == 'bad_am':
+                i = rng.choice(shells); t = m[i].split(); t[1] = rng.choice(['q', 'j', 'x', 'S']); m[i] = '   '.join(t)
+            elif kind == 'ordinals':
+                for k, i in enumerate(rows):
+                    m[i] = '%d %s' % (k + 1, m[i])
+            elif kind == 'bad_ordinal':
+                i = rng.choice(rows); m[i] = rng.choice(['1.0 ', 'x ', '-1 ']) + m[i]
+            elif kind == 'garbage_token':
+                i = rng.choice(rows); t = m[i].split(); t[rng.randrange(len(t))] = rng.choice(['abc', '1.0.0', '12', '1e5', '.', '-.5D-3']); m[i] = ' '.join(t)
+            elif kind == 'three_floats':
+                i = rng.choice(rows); m[i] = m[i] + ' 1.0'
+            elif kind == 'dup_element':
+                i = elems[0]
+                c = next(k for k in range(i + 2, len(m)) if m[k] == '*')
+                m = m + m[i:c + 1]
+            elif kind == 'bad_sym':
+                i = rng.choice(elems); t = m[i].split(None, 1); t[0] = rng.choice(['xx', 'qq', 'zzz']); m[i] = ' '.join(t)
+            elif kind == 'elem_no_name':
+                i = rng.choice(elems); m[i] = m[i].split()[0]
+            elif kind == 'shell_without_rows':
+                i = rng.choice(shells); m.insert(i, m[i])
+            elif kind == 'upper':
+                m = [l.upper() if not l.startswith('$') else l for l in m]
+        except (IndexError, ValueError):
+            continue
+        m = [l for l in m if l.strip()]
+        if m:
+            out.append((kind, m))
+    return out
+
+
+def tm_cases(b, rng):
+    from basis_set_exchange import writers, manip, sort
+    from basis_set_exchange.readers import helpers
+    if not any('electron_shells' in el for el in b['elements'].values()):
+        return []
+    try:
+        text = writers.write_formatted_basis_str(b, 'turbomole')
+    except Exception:
+        return []
+    lines = helpers.prune_lines(text.splitlines(), '#')
+    # the electron section: from the first `$` line up to the next `$` line
+    idx = [i for i, l in enumerate(lines) if l.startswith('$')]
+    if len(idx) < 2 or lines[idx[0]].lower() == '$ecp':
+        return []
+    sec = lines[idx[0]:idx[1]]
+    pruned = helpers.prune_lines(sec, '$')
+    pb = sort.sort_basis(manip.uncontract_spdf(manip.uncontract_general(b, True), 0, False), False)
+    conv = lambda x: x.strip().replace('e', 'D').replace('E', 'D')
+    els = [dict(z=int(z), shells=[dict(am=sh['angular_momentum'], exps=[conv(x) for x in sh['exponents']], coefs=[[conv(x) for x in c] for c in sh['coefficients']])
+                                  for sh in el['electron_shells']]) for z, el in pb['elements'].items() if 'electron_shells' in el]
+    cases = [('tm-write', dict(op='tm_write', name=b['name'], els=els), [tm_tok(l) for l in pruned]),
+             ('tm-read', dict(op='tm_read', lines=[tm_tok(l) for l in pruned]), tm_real_read(sec))]
+    for kind, m in tm_mutations(sec, rng):
+        mp = helpers.prune_lines(m, '$')
+        cases.append(('tm-read:' + kind, dict(op='tm_read', lines=[tm_tok(l) for l in mp]), tm_real_read(m)))
+    return cases
+
 def run(ctx):
     bse = import_bse()
     R = Result('C03')
@@ -601,7 +714,7 @@ def run(ctx):
             if 'drv_error' in a:
                 raise DriverError(a['drv_error'])
             R.ev()
-            if what in ('write', 'ecp-write', 'g94-write', 'g94ecp-write'):
+            if what in ('write', 'ecp-write', 'g94-write', 'g94ecp-write', 'tm-write'):
                 R.count('nwchem-model:' + what)
                 if a['lines'] != exp:
                     k = next((i for i, (x, y) in enumerate(zip(a['lines'], exp)) if x != y), min(len(a['lines']), len(exp)))
@@ -615,6 +728,9 @@ def run(ctx):
                     continue
                 if what.startswith('ecp') and got[0] == 'ok':
                     got = ('ok', [[z, n, [dict(p, rexp=[int(x) for x in p['rexp']]) for p in ps]] for z, n, ps in got[1]])
+                if what.startswith('tm-') and got[0] == 'ok':
+                    rd = lambda x: x.replace('D', 'E').replace('d', 'e')
+                    got = ('ok', [[z, [dict(ftype=sh['ftype'], am=sh['am'], exps=[rd(x) for x in sh['exps']], coefs=[[rd(x) for x in c] for c in sh['coefs']]) for sh in shs]] for z, shs in got[1]])
                 if what.startswith('g94ecp') and got[0] == 'ok':
                     z, n, ps = got[1]
                     rd = lambda x: x.replace('D', 'E').replace('d', 'e')
